@@ -79,12 +79,18 @@ def bounded_selection(ctx, rule, check_limit_arg=True):
                  "buffer (fail closed): %s" % [m for _, m, _, _ in evs], kind="S")
         return
     pop = pops[0]
+    # the pop that follows the fill phase (a fast `if done { return buffer.pop() }` may come first)
+    for p_ in pops:
+        if any(cfg.path_exists(tb, p_) for tb, _, _ in truncs):
+            pop = p_
     # (i) every truncate: argument is the limit field and a sort dominates it with no push in between
     for (tb, tt, ta) in truncs:
         key = "truncate@%s" % ("drain" if cfg.in_loop(tb) else "final")
         lim_ok = is_field(ta[1], f_limit) or not check_limit_arg
-        sdom = [s_ for s_ in sorts if cfg.dominates(s_, tb) and cfg.every_path_passes(s_, [tb])
-                and not any(_between(cfg, s_, p, tb) for p in pushes)]
+        # every path from the entry and from every push to this truncate passes through a sort (the stable and the
+        # unstable sort are alternatives of one `if`), and once sorted the truncate is reached on every path
+        sdom = not cfg.path_exists(0, tb, avoid=sorts) and not any(cfg.path_exists(p, tb, avoid=sorts) for p in pushes if p != tb) \
+            and all(cfg.every_path_passes(s_, [tb]) for s_ in sorts if cfg.path_exists(s_, tb, avoid=[x for x in sorts if x != s_] + pushes))
         if lim_ok and sdom:
             ctx.ok(rule, key, where(nb, tb, tt), "truncate(limit) directly follows a sort of the buffer", nontrivial=True, kind="S")
         elif not lim_ok:
@@ -128,8 +134,14 @@ def bounded_selection(ctx, rule, check_limit_arg=True):
     # every item taken from the source is pushed: no path from the `Some` arm of source.next() back to the next
     # source.next() (or on to the final phase) avoids the push
     key = "every-item-buffered"
+    def through_iter_identity(e):
+        # `for x in source.by_ref()`: by_ref / into_iter of an iterator are the iterator itself
+        e = S.strip_refs(e)
+        while isinstance(e, tuple) and e and e[0] == "call" and e[1].endswith(("Iterator::by_ref", "IntoIterator::into_iter")) and e[2]:
+            e = S.strip_refs(e[2][0])
+        return e
     src_next = [bi for bi, t in nb.calls() if (t.get("cn") or "").endswith("Iterator::next") and t["args"] and
-                is_field(sy.operand(t["args"][0]), f_src)]
+                is_field(through_iter_identity(sy.operand(t["args"][0])), f_src)]
     ok_items = False
     if src_next and pushes:
         nbi = src_next[0]
@@ -314,27 +326,72 @@ def search_chain_shape(ctx, rule, parts=("order", "score", "filter", "comparator
     src, stages = main[0]
     names = [s[0] for s in stages]
     key = "chain"
-    want = ["iter", "map", "map", "filter", "limit_sort_unstable", "map", "collect"]
-    norm_names = [("limit_sort_unstable" if n.startswith("limit_sort") else n) for n in names]
-    if norm_names == want:
+    # roles of the stages: what each one does, judged from the calls inside its closure (two `map`s may be fused into one)
+    roles = []          # (role, stage)
+    unknown = []
+    for st in stages:
+        n = st[0]
+        if n in ("iter", "into_iter", "copied", "cloned"):
+            roles.append(("source", st))
+        elif n.startswith("limit_sort"):
+            roles.append(("select", st))
+        elif n == "filter":
+            roles.append(("filter", st))
+        elif n == "collect":
+            roles.append(("collect", st))
+        elif n == "map":
+            cbody = U.closure_body(ctx, st[1][0]) if st[1] else None
+            got = []
+            if cbody is not None:
+                ccfg = ctx.cfg(cbody)
+                marks = []
+                for cbi, ct in cbody.calls():
+                    r_ = ct.get("rcn") or ""
+                    if r_.endswith("Hit::from_record"):
+                        marks.append((cbi, "hit"))
+                    elif r_.endswith("score::score"):
+                        marks.append((cbi, "score"))
+                    elif r_.endswith("highlight::highlight"):
+                        marks.append((cbi, "result"))
+                for cbi, si_, st_ in cbody.iter_stmts():
+                    if st_["k"] == "assign" and st_["rv"]["k"] == "agg" and st_["rv"].get("did", "").endswith("SearchResult"):
+                        marks.append((cbi, "result"))
+                # order inside the closure by dominance
+                import functools
+                def before(a, b):
+                    if a[0] == b[0]:
+                        return 0
+                    return -1 if ccfg.dominates(a[0], b[0]) else (1 if ccfg.dominates(b[0], a[0]) else 0)
+                marks.sort(key=functools.cmp_to_key(before))
+                for _, r_ in marks:
+                    if r_ not in got:
+                        got.append(r_)
+            if not got:
+                unknown.append(n)
+            for r_ in got:
+                roles.append((r_, st))
+        else:
+            unknown.append(n)
+    role_names = [r for r, _ in roles]
+    want = ["source", "hit", "score", "filter", "select", "result", "collect"]
+    if role_names == want and not unknown:
         if "order" in parts:
             ctx.ok(rule, key, sb.where(), "search is ixs -> hit -> score -> filter -> bounded selection -> result", {"stages": names},
                    nontrivial=True)
     elif "order" in parts:
-        ctx.fail(rule, key, sb.where(), "search pipeline changed shape: %s — every record that is a hit on its own must reach the "
-                 "bounded selection (filter before the cut)" % names,
+        ctx.fail(rule, key, sb.where(), "search pipeline changed shape: %s (roles %s) — every record that is a hit on its own must reach the "
+                 "bounded selection (filter before the cut)" % (names, role_names),
                  {"witness": "a rejected candidate takes a slot of the top-`limit` list and a genuine hit goes missing"})
         return
     else:
-        # the stages this property needs are located by name below; a different overall order is not this property's business
-        idx = {n: i for i, n in enumerate(norm_names)}
-        if sorted(norm_names) != sorted(want):
+        # the stages this property needs are located by role below; a different overall order is not this property's business
+        if sorted(role_names) != sorted(want) or unknown:
             ctx.fail(rule, key, sb.where(), "search pipeline lost or gained stages: %s (fail closed)" % names)
             return
-        stages = [stages[norm_names.index("iter")], stages[norm_names.index("map")],
-                  stages[norm_names.index("map") + 1] if norm_names.count("map") >= 2 else stages[norm_names.index("map")],
-                  stages[norm_names.index("filter")], stages[norm_names.index("limit_sort_unstable")],
-                  stages[len(norm_names) - 1 - norm_names[::-1].index("map")], stages[norm_names.index("collect")]]
+    by_role = {}
+    for r_, st in roles:
+        by_role.setdefault(r_, st)
+    stages = [by_role["source"], by_role["hit"], by_role["score"], by_role["filter"], by_role["select"], by_role["result"], by_role["collect"]]
     # score closure calls score::score on (query, hit) and returns the hit; filter closure calls hit_matches(query, hit)
     sc = U.closure_body(ctx, stages[2][1][0])
     fl = U.closure_body(ctx, stages[3][1][0])
@@ -414,13 +471,11 @@ def search_chain_shape(ctx, rule, parts=("order", "score", "filter", "comparator
         if not bt:
             continue
         e = sy.operand(t["discr"])
-        if e[0] == "binop" and e[1] in U.CMP_OPS and U.is_const(e[3]) and e[2][0] == "call" and e[2][1].endswith("::len"):
-            p = U.field_path(e[2][2][0])
+        lt = U.len_test(e)
+        if lt is not None:
+            p = U.field_path(lt[0])
             if p and p[2] == ["words"]:
-                c = S.const_value(e[3])
-                truth0 = U.cmp_eval(e[1], 0, c)
-                truth1 = U.cmp_eval(e[1], 1, c)
-                truth5 = U.cmp_eval(e[1], 5, c)
+                truth0, truth1, truth5 = lt[1](0), lt[1](1), lt[1](5)
                 cfg = ctx.cfg(sb)
                 prep = set(bi2 for bi2, t2 in sb.calls() if (t2.get("rcn") or "").endswith("TrigramIndex::prepare"))
                 top = set(bi2 for bi2, t2 in sb.calls() if (t2.get("rcn") or "").endswith("::top_ixs"))
